@@ -29,9 +29,25 @@ Inductive case_C02 : Type :=
        [cut] bytes, followed by the junk bytes (Some ([], 0, []) = an empty file).  [chain]: the files in_1 .. in_n (each as in
        CExport) exported one after the other to the SAME path: `adlt convert -o out.dlt in_k.dlt`, k = 1..n.  Then the export of
        the export, `adlt convert -o out2.dlt out.dlt`, with out2.dlt in state [pre2] before. *)
-| CExportPlugin (pre : option (list (N * N * N * bool * N) * N * list (N * list N))) (specs : list (N * N * N * bool * N)).
+| CExportPlugin (pre : option (list (N * N * N * bool * N) * N * list (N * list N))) (specs : list (N * N * N * bool * N))
     (* library level: ExportPlugin (plugins/export.rs) without filters, its export file in state [pre] before the plugin
        is built, every message of the file [specs] processed *)
+| CExportOpts (opts : list N) (ft : option (option char4 * option char4))
+              (msgs : list (N * char4 * N * N * N * option (N * N * char4 * char4) * list N)).
+    (* wave 7: the export under the options of `adlt convert` that configure plugins or processing but do NOT select
+       messages.  [msgs]: (reception time us, ecu, timestamp dms, htyp, mcnt, extended header (verb_mstp_mtin, noar, apid,
+       ctid), payload) -- in.dlt = to_write of every message.  [opts]: codes of the options given together with -o
+       (1 --file_transfer=<glob>, 2 --file_transfer_path, 3 --file_transfer_apid, 4 --file_transfer_ctid, 5 --nonverbose_path,
+       6 --someip_path, 7 --rewrite_path, 8 --can_path, 9 --muniic_path, 10 --sort, 11 --debug_verify_sort,
+       12 --debug_verify_lcs, 13 -x, 14 -a, 15 -s); [ft] = Some (apid, ctid) iff --file_transfer is among them (the ids
+       given with --file_transfer_apid / _ctid).  `adlt convert <opts> -o a.dlt in.dlt`, `adlt convert <opts> -o b.dlt a.dlt`.
+       Observed: in.dlt; a.dlt with the completions the decoders are allowed to make undone (extended header filled in by
+       the non-verbose plugin, timestamp set by the rewrite plugin) and, under --sort, put back into input order -- when
+       a.dlt holds exactly the input's messages; else a.dlt as it is; the message counters it re-reads to; b == a.
+       Model: the plugin stage holds the file-transfer plugin AS CONFIGURED BY convert() (Dlt/WritePipeline.v: cli_ft_cfg);
+       the decoders are conservative stages (C19), whose completions the observation undoes
+       (C02_export_under_forwarding_plugin_stage), --sort is a permutation (C10), the other options do not touch the
+       message path. *)
 
 (* MSpec::build(index): kind 0 plain, 1 control request, 2 control response (non-verbose), 3 verbose control response *)
 Definition spec_msg (i : N) (s : N * N * N * bool * N) : msg :=
@@ -138,6 +154,34 @@ Definition export_over_obs (pre : fs_path) (chain : list bytes) (pre2 : fs_path)
      | None => L 3
      end].
 
+(* ---- export under non-selecting options (CExportOpts) *)
+Definition xmsg_msg (i : N) (x : N * char4 * N * N * N * option (N * N * char4 * char4) * list N) : msg :=
+  let '(rt, ecu, ts, h, mc, ext, p) := x in
+  {| m_index := i; m_reception_us := rt; m_ecu := ecu; m_timestamp := ts;
+     m_std := {| htyp := h; mcnt := mc; len := 0 |};
+     m_ext := match ext with
+              | Some (v, n, a, c) => Some {| verb_mstp_mtin := v; noar := n; apid := a; ctid := c |}
+              | None => None
+              end;
+     m_payload := p |}.
+Fixpoint xmsgs (i : N) (l : list (N * char4 * N * N * N * option (N * N * char4 * char4) * list N)) : list msg :=
+  match l with [] => [] | x :: r => xmsg_msg i x :: xmsgs (i + 1) r end.
+(* the plugin stage of the command: the file-transfer plugin with the configuration convert() builds; the glob and the
+   auto-save path do not enter the forwarding decision *)
+Definition cli_plugins (ft : option (option char4 * option char4)) : list plugin :=
+  match ft with
+  | Some (a, c) => [ft_plugin (cli_ft_cfg (option_map ecu_key a) (option_map ecu_key c) None (fun _ => true))]
+  | None => []
+  end.
+Definition export_opts_obs (ft : option (option char4 * option char4)) (inp : bytes) : otree :=
+  match convert_o_plugins (cli_plugins ft) inp with
+  | Ok (WOk a) =>
+      T [L 14; o_file inp; o_file a;
+         match run_iter 0 a with Ok (ms, _, rest) => T [T (map (fun m => L (mcnt (m_std m))) ms); L (blen rest)] | _ => L 1 end;
+         match convert_o_plugins (cli_plugins ft) a with Ok (WOk b) => ob (bytes_eqb a b) | _ => L 2 end]
+  | _ => T [L 15; o_file inp]
+  end.
+
 Definition run_C02 (c : case_C02) : otree :=
   match c with
   | CStream start segs =>
@@ -198,5 +242,10 @@ Definition run_C02 (c : case_C02) : otree :=
       let inp := spec_file specs in
       T [L 11; match prior_path pre with None => L 0 | Some b => o_file b end; o_file inp;
          match specs with [] => L 0 | _ => o_path (Some inp) end]
+  | CExportOpts _ ft msgs =>
+      match write_all (xmsgs 0 msgs) with
+      | Ok (WOk inp) => export_opts_obs ft inp
+      | _ => T [L 7]
+      end
   end.
 Definition agree_C02 : case_C02 -> otree -> bool := agree_det run_C02.
